@@ -21,26 +21,12 @@ def build():
         return _built[REPO]
     with unit_lock('replay_runner_build'):
         d = crate_dir()
-        scratch = os.path.realpath(REPO) != '/repo'
-        # scratch copies of the repository share one cargo target directory (dependencies are compiled once); the binary is
-        # copied into the run's own work directory while the build lock is held
-        tdir = os.path.join(VERIF, '.work', 'replay_target_scratch' if scratch else 'replay_target')
-        env = dict(os.environ, CARGO_NET_OFFLINE='true', CARGO_TARGET_DIR=tdir)
-        if scratch:
-            import fcntl
-            os.makedirs(tdir, exist_ok=True)
-            lf = open(os.path.join(tdir, '.verif_build.lock'), 'w')
-            fcntl.flock(lf, fcntl.LOCK_EX)
+        # one target directory per work directory (a clean build of the library and the runner takes about 10 s and 225 MB)
+        tdir = os.path.join(WORK, 'replay_target')
+        env = dict(os.environ, CARGO_NET_OFFLINE='true', CARGO_TARGET_DIR=tdir, CARGO_INCREMENTAL='0')
         p = subprocess.run(['cargo', 'build', '--offline', '-q'], cwd=d, env=env, capture_output=True, text=True, timeout=1800)
         exe = os.path.join(tdir, 'debug', 'replay_runner')
         ok = p.returncode == 0 and os.path.exists(exe)
-        if ok and scratch:
-            own = os.path.join(WORK, 'replay_runner_exe')
-            shutil.copy2(exe, own)
-            exe = own
-        if scratch:
-            fcntl.flock(lf, fcntl.LOCK_UN)
-            lf.close()
         _built[REPO] = (exe if ok else None, p.stderr[-2000:])
     return _built[REPO]
 
